@@ -98,6 +98,39 @@ class Run:
                     self.ctx.count('dependant_compares_after_write')
                     self.compare(d, after_write=True)
 
+    def op_set_range(self, range_addr, matrix):
+        """set_value(range, matrix): every cell of the range is written (list-like value)"""
+        sheet, ref = range_addr.rsplit('!', 1)
+        cells = [[wb.addr(sheet, c) for c in row] for row in wb.range_cells(ref)]
+        idx = len(self.ops)
+        self.ops.append(['setr', range_addr, matrix])
+        built = {a for a in self.meta['formulas'] if self.model.has(a)}
+        olds = {a: self.current_value(a) for row in cells for a in row}
+        out = wb.outcome(self.model.comp.set_value, range_addr, matrix)
+        self.model.events.append(('call+ret', 'set_value', range_addr, out[0]))
+        if out[0] == 'x':
+            self.found.append(('set_value-raised', f'set_value({range_addr!r}, {matrix!r}) raised {out[1]}',
+                               range_addr))
+            return
+        self.ctx.count('range_writes')
+        changed = []
+        for row, vals in zip(cells, matrix):
+            for a, v in zip(row, vals):
+                self.inputs[a] = v
+                if wb.norm(olds[a]) != wb.norm(v):
+                    self.ctx.count('value_changing_writes')
+                    self.ctx.count('trans:' + transition(olds[a], v))
+                    self.writes.append((idx, a, olds[a], v, built))
+                    changed.append(a)
+        self.fresh = None
+        if self.eager:
+            todo = set()
+            for a in changed:
+                todo |= wbgen.dependants(self.meta, a) & built
+            for d in sorted(todo):
+                self.ctx.count('dependant_compares_after_write')
+                self.compare(d, after_write=True)
+
     def op_eval(self, target):
         self.ops.append(['eval', target])
         self.compare(target)
@@ -199,6 +232,23 @@ class Run:
             return ('set', a, v)
         if r < 0.50 and self.config != 'xlsx' and len(self.ops) > 2:
             return ('reload', rng.choice(['yml', 'json', 'pkl']))
+        if r < 0.54:
+            # a range node whose cells are all plain inputs of a main sheet: written in one call
+            ranges = []
+            for a, node in self.model.comp.cell_map.items():
+                if ':' not in a or a.rsplit('!', 1)[0] == wbgen.SD or getattr(node, 'formula', None):
+                    continue
+                p = wb.range_cells(a.rsplit('!', 1)[1]) if a.count(':') == 1 and a.rsplit('!', 1)[1][0].isalpha() \
+                    and a.rsplit('!', 1)[1][-1].isdigit() else None
+                if not p or len(p) * len(p[0]) > 9:
+                    continue
+                sheet = a.rsplit('!', 1)[0]
+                members = [wb.addr(sheet, c) for row in p for c in row]
+                if all(m in self.model.comp.cell_map and m not in self.meta['formulas'] for m in members):
+                    ranges.append((a, len(p), len(p[0])))
+            if ranges:
+                a, h, w = rng.choice(sorted(ranges))
+                return ('setr', a, [[wbgen.pick_value(rng, numeric_bias=0.6) for _ in range(w)] for _ in range(h)])
         if r < 0.58:
             s = rng.choice([x for x in self.sheets if x != wbgen.SD] or self.sheets)
             c1, r1 = rng.randint(1, 4), rng.randint(1, 5)
@@ -215,6 +265,8 @@ class Run:
         if op[0] == 'set':
             if self.model.has(op[1]):
                 self.op_set(op[1], op[2])
+        elif op[0] == 'setr':
+            self.op_set_range(op[1], op[2])
         elif op[0] == 'eval':
             self.op_eval(op[1])
         elif op[0] == 'reload':
